@@ -285,7 +285,7 @@ func (v *parser_) parseCollection() (
 	case "Catalog":
 		var catalog = col.Catalog[any, any](notation).Make()
 		for _, item := range sequence.AsArray() {
-			var association = item.(col.AssociationLike[any, any])
+			var association = v.asAssociation(item, token)
 			var key = association.GetKey()
 			var value = association.GetValue()
 			catalog.SetValue(key, value)
@@ -294,7 +294,7 @@ func (v *parser_) parseCollection() (
 	case "Map":
 		var map_ = col.Map[any, any](notation).Make()
 		for _, item := range sequence.AsArray() {
-			var association = item.(col.AssociationLike[any, any])
+			var association = v.asAssociation(item, token)
 			var key = association.GetKey()
 			var value = association.GetValue()
 			map_.SetValue(key, value)
@@ -316,6 +316,25 @@ func (v *parser_) parseCollection() (
 	return collection, token, ok
 }
 
+// This private instance method returns the specified item of a sequence as an
+// association.  A catalog or a map can only be made from associations, so any
+// other item is reported as a syntax error at the token naming the type.
+func (v *parser_) asAssociation(
+	item any,
+	token TokenLike,
+) col.AssociationLike[any, any] {
+	var association, ok = item.(col.AssociationLike[any, any])
+	if !ok {
+		var message = v.formatError(token)
+		message += v.generateSyntax("Association",
+			"Associations",
+			"Association",
+		)
+		panic(message)
+	}
+	return association
+}
+
 func (v *parser_) parseContext() (
 	context string,
 	token TokenLike,
@@ -329,9 +348,10 @@ func (v *parser_) parseContext() (
 	}
 
 	// Attempt to parse the type of the context.
-	context, token, ok = v.parseToken(TypeToken, "")
+	var typeToken TokenLike
+	context, typeToken, ok = v.parseToken(TypeToken, "")
 	if !ok {
-		var message = v.formatError(token)
+		var message = v.formatError(typeToken)
 		message += v.generateSyntax("type",
 			"Context",
 		)
@@ -348,7 +368,8 @@ func (v *parser_) parseContext() (
 		panic(message)
 	}
 
-	return context, token, ok
+	// Found a context, the token naming its type locates it in the source.
+	return context, typeToken, ok
 }
 
 func (v *parser_) parseInlineAssociations() (
